@@ -824,7 +824,8 @@ class NNDescent:
                 self._is_sparse = True
 
                 if not self._raw_data.has_sorted_indices:
-                    self._raw_data.sort_indices()
+                    # sort a copy: the matrix may be the caller's own object
+                    self._raw_data = self._raw_data.sorted_indices()
 
                 if metric in sparse.sparse_named_distances:
                     if metric in sparse.sparse_fast_distance_alternatives:
@@ -1759,7 +1760,8 @@ class NNDescent:
             if not isspmatrix_csr(query_data):
                 query_data = csr_matrix(query_data, dtype=np.float32)
             if not query_data.has_sorted_indices:
-                query_data.sort_indices()
+                # sort a copy: the matrix may be the caller's own object
+                query_data = query_data.sorted_indices()
 
             indices, dists, _ = self._search_function(
                 query_data.indices,
